@@ -88,12 +88,32 @@ pub fn main(args: &[String]) -> i32 {
     for inst in job["instances"].as_array().unwrap() {
         let y = inst["y"].as_str().unwrap();
         let kind = yacckind(inst["kind"].as_str().unwrap_or("original"));
+        let via_from_str = inst["from_str"].as_bool().unwrap_or(false);
         let r = catch(|| {
-            let astv = ASTWithValidityInfo::new(kind, y);
+            // (from_str: the kind comes from the text's own %grmtools section)
+            let astv = if via_from_str {
+                match <ASTWithValidityInfo as std::str::FromStr>::from_str(y) {
+                    Ok(a) => a,
+                    Err(es) => {
+                        return json!({"class": "err", "errors": es.iter().map(|e| json!({"kind": format!("{}", e), "spans": e.spans().iter().map(|s| [s.start(), s.end()]).collect::<Vec<_>>()})).collect::<Vec<_>>()});
+                    }
+                }
+            } else {
+                ASTWithValidityInfo::new(kind, y)
+            };
             match YaccGrammar::<u32>::new_from_ast_with_validity_info(&astv) {
                 Ok(g) => {
                     let warnings = astv.ast().warnings().iter().map(|w| json!({"kind": format!("{}", w), "spans": w.spans().iter().map(|s| [s.start(), s.end()]).collect::<Vec<_>>()})).collect::<Vec<_>>();
-                    json!({"class": "ok", "obs": observe(&g), "warnings": warnings})
+                    // ... and the grammar the other entry points make of the same text must be the same
+                    let same = if via_from_str {
+                        let o1 = observe(&g);
+                        let g2 = <YaccGrammar<u32> as std::str::FromStr>::from_str(y).ok().map(|g| observe(&g));
+                        let g3 = YaccGrammar::<u32>::new_with_storaget(kind, y).ok().map(|g| observe(&g));
+                        g2.as_ref() == Some(&o1) && g3.as_ref() == Some(&o1)
+                    } else {
+                        true
+                    };
+                    json!({"class": "ok", "obs": observe(&g), "warnings": warnings, "entries_agree": same})
                 }
                 Err(es) => json!({"class": "err", "errors": es.iter().map(|e| json!({"kind": format!("{}", e), "spans": e.spans().iter().map(|s| [s.start(), s.end()]).collect::<Vec<_>>()})).collect::<Vec<_>>()}),
             }
